@@ -34,8 +34,10 @@ VARIABLES pi,      \* which program
           once,    \* once[o] \in {0, 1}
           spec,    \* spec[t][k]: thread-specific value (0 = NULL)
           out,     \* out[t]: values observed by thread t, in program order
-          glob     \* [dtsum, dtcalls, oncecnt, serials]
-vars == <<pi, pc, st, det, retv, mown, var, bar, bgen, once, spec, out, glob>>
+          glob,    \* [dtsum, dtcalls, oncecnt, serials]
+          tmp      \* tmp[t]: value loaded by the first half of an addition (NoTmp otherwise)
+vars == <<pi, pc, st, det, retv, mown, var, bar, bgen, once, spec, out, glob, tmp>>
+NoTmp == -999999
 
 P == Progs[pi]
 NT == Len(P.threads)
@@ -55,6 +57,7 @@ Init == /\ pi \in 1..Len(Progs)
         /\ spec = [t \in 1..8 |-> [k \in Obj |-> 0]]
         /\ out = [t \in 1..8 |-> <<>>]
         /\ glob = [dtsum |-> 0, dtcalls |-> 0, oncecnt |-> 0, serials |-> 0]
+        /\ tmp = [t \in 1..8 |-> NoTmp]
 
 Adv(t) == pc' = [pc EXCEPT ![t] = @ + 1]
 Emit(t, v) == out' = [out EXCEPT ![t] = Append(@, v)]
@@ -67,7 +70,7 @@ End(t, v) ==
      \* (the main thread leaves by returning from main: the process ends, no destructors)
      glob' = IF t = 1 THEN glob ELSE [glob EXCEPT !.dtsum = @ + Sum(ks), !.dtcalls = @ + Cardinality(ks)]
   /\ spec' = [spec EXCEPT ![t] = [k \in Obj |-> 0]]
-  /\ UNCHANGED <<pi, pc, det, mown, var, bar, bgen, once, out>>
+  /\ UNCHANGED <<pi, pc, det, mown, var, bar, bgen, once, out, tmp>>
 
 Step(t) ==
   /\ st[t] = "run" /\ pc[t] >= 1
@@ -76,50 +79,54 @@ Step(t) ==
      CASE o.op = "CREATE" -> /\ st[o.a] = "none"
                              /\ st' = [st EXCEPT ![o.a] = "run"] /\ pc' = [pc EXCEPT ![t] = @ + 1, ![o.a] = 1]
                              /\ det' = [det EXCEPT ![o.a] = (o.b = 2)]       \* attribute kind 2: created detached
-                             /\ UNCHANGED <<pi, retv, mown, var, bar, bgen, once, spec, out, glob>>
+                             /\ UNCHANGED <<pi, retv, mown, var, bar, bgen, once, spec, out, glob, tmp>>
        [] o.op = "JOIN" -> /\ st[o.a] = "done" /\ ~det[o.a]
                            /\ st' = [st EXCEPT ![o.a] = "joined"] /\ Adv(t) /\ Emit(t, retv[o.a])
-                           /\ UNCHANGED <<pi, det, retv, mown, var, bar, bgen, once, spec, glob>>
+                           /\ UNCHANGED <<pi, det, retv, mown, var, bar, bgen, once, spec, glob, tmp>>
        [] o.op = "DETACH" -> /\ st[o.a] # "none" /\ det' = [det EXCEPT ![o.a] = TRUE] /\ Adv(t)
-                             /\ UNCHANGED <<pi, st, retv, mown, var, bar, bgen, once, spec, out, glob>>
+                             /\ UNCHANGED <<pi, st, retv, mown, var, bar, bgen, once, spec, out, glob, tmp>>
        [] o.op \in {"RET", "EXIT"} -> End(t, o.a)
        [] o.op \in {"LOCK", "TLOCK", "SPIN"} ->          \* (TLOCK: trylock in a loop with yields)
                            /\ mown[o.a] = 0 /\ mown' = [mown EXCEPT ![o.a] = t] /\ Adv(t)
-                           /\ UNCHANGED <<pi, st, det, retv, var, bar, bgen, once, spec, out, glob>>
+                           /\ UNCHANGED <<pi, st, det, retv, var, bar, bgen, once, spec, out, glob, tmp>>
        [] o.op \in {"UNLOCK", "SPUN"} ->
                            /\ mown[o.a] = t /\ mown' = [mown EXCEPT ![o.a] = 0] /\ Adv(t)
-                           /\ UNCHANGED <<pi, st, det, retv, var, bar, bgen, once, spec, out, glob>>
-       [] o.op = "ADD" -> /\ var' = [var EXCEPT ![o.a] = @ + o.b] /\ Adv(t)
+                           /\ UNCHANGED <<pi, st, det, retv, var, bar, bgen, once, spec, out, glob, tmp>>
+       \* var += k is a load followed by a store (the C program's increment is not atomic): an addition that is not
+       \* protected by one lock common to all its users makes the program indeterminate, and TLC finds that out
+       [] o.op = "ADD" -> /\ (IF tmp[t] = NoTmp
+                              THEN /\ tmp' = [tmp EXCEPT ![t] = var[o.a]] /\ UNCHANGED <<pc, var>>
+                              ELSE /\ var' = [var EXCEPT ![o.a] = tmp[t] + o.b] /\ tmp' = [tmp EXCEPT ![t] = NoTmp] /\ Adv(t))
                           /\ UNCHANGED <<pi, st, det, retv, mown, bar, bgen, once, spec, out, glob>>
        [] o.op = "READ" -> /\ Emit(t, var[o.a]) /\ Adv(t)
-                           /\ UNCHANGED <<pi, st, det, retv, mown, var, bar, bgen, once, spec, glob>>
+                           /\ UNCHANGED <<pi, st, det, retv, mown, var, bar, bgen, once, spec, glob, tmp>>
        \* lock m; while (var != val) cond_wait(c, m); unlock m     -- an await on the predicate
        [] o.op = "WAITV" -> /\ mown[o.a] = 0 /\ var[o.b] = o.c /\ Adv(t)
-                            /\ UNCHANGED <<pi, st, det, retv, mown, var, bar, bgen, once, spec, out, glob>>
+                            /\ UNCHANGED <<pi, st, det, retv, mown, var, bar, bgen, once, spec, out, glob, tmp>>
        \* lock m; var = val; signal / broadcast c; unlock m
        [] o.op = "SIGV" -> /\ mown[o.a] = 0 /\ var' = [var EXCEPT ![o.b] = o.c] /\ Adv(t)
-                           /\ UNCHANGED <<pi, st, det, retv, mown, bar, bgen, once, spec, out, glob>>
+                           /\ UNCHANGED <<pi, st, det, retv, mown, bar, bgen, once, spec, out, glob, tmp>>
        [] o.op = "BARRIER" ->
             IF bar[o.a] + 1 = P.barn[o.a + 1]
             THEN \* last arriver: everybody of this round is released; exactly one return value says "serial thread"
                  /\ bar' = [bar EXCEPT ![o.a] = 0]
                  /\ st' = [u \in 1..8 |-> IF st[u] = "inbar" /\ bgen[u] = o.a THEN "run" ELSE st[u]]
                  /\ glob' = [glob EXCEPT !.serials = @ + 1] /\ Adv(t)
-                 /\ UNCHANGED <<pi, det, retv, mown, var, bgen, once, spec, out>>
+                 /\ UNCHANGED <<pi, det, retv, mown, var, bgen, once, spec, out, tmp>>
             ELSE /\ bar' = [bar EXCEPT ![o.a] = @ + 1]
                  /\ st' = [st EXCEPT ![t] = "inbar"] /\ bgen' = [bgen EXCEPT ![t] = o.a] /\ Adv(t)
-                 /\ UNCHANGED <<pi, det, retv, mown, var, once, spec, out, glob>>
+                 /\ UNCHANGED <<pi, det, retv, mown, var, once, spec, out, glob, tmp>>
        [] o.op = "ONCE" -> /\ once' = [once EXCEPT ![o.a] = 1]
                            /\ glob' = IF once[o.a] = 0 THEN [glob EXCEPT !.oncecnt = @ + 1] ELSE glob
-                           /\ Adv(t) /\ UNCHANGED <<pi, st, det, retv, mown, var, bar, bgen, spec, out>>
+                           /\ Adv(t) /\ UNCHANGED <<pi, st, det, retv, mown, var, bar, bgen, spec, out, tmp>>
        [] o.op = "SETSPEC" -> /\ spec' = [spec EXCEPT ![t][o.a] = o.b] /\ Adv(t)
-                              /\ UNCHANGED <<pi, st, det, retv, mown, var, bar, bgen, once, out, glob>>
+                              /\ UNCHANGED <<pi, st, det, retv, mown, var, bar, bgen, once, out, glob, tmp>>
        [] o.op = "GETSPEC" -> /\ Emit(t, spec[t][o.a]) /\ Adv(t)
-                              /\ UNCHANGED <<pi, st, det, retv, mown, var, bar, bgen, once, spec, glob>>
+                              /\ UNCHANGED <<pi, st, det, retv, mown, var, bar, bgen, once, spec, glob, tmp>>
        [] o.op = "SELF" -> /\ Emit(t, 1) /\ Adv(t)       \* pthread_equal(self, self) and not equal to another live thread
-                           /\ UNCHANGED <<pi, st, det, retv, mown, var, bar, bgen, once, spec, glob>>
+                           /\ UNCHANGED <<pi, st, det, retv, mown, var, bar, bgen, once, spec, glob, tmp>>
        [] OTHER -> \* YIELD, SLEEP: no observable effect
-                   /\ Adv(t) /\ UNCHANGED <<pi, st, det, retv, mown, var, bar, bgen, once, spec, out, glob>>
+                   /\ Adv(t) /\ UNCHANGED <<pi, st, det, retv, mown, var, bar, bgen, once, spec, out, glob, tmp>>
 
 AllDone == \A t \in T : st[t] \in {"done", "joined"}
 Result == [vars |-> [v \in Obj |-> var[v]], outs |-> [t \in T |-> out[t]], glob |-> glob]
